@@ -57,6 +57,7 @@ class CFG:
         self.exit = self._new("exit")
         self.raise_exit = self._new("raise")
         ctx = {"exc": self.raise_exit.id, "ret": self.exit.id, "brk": None, "cont": None}
+        self._named = self._named_conditions()
         body = fn.body if isinstance(fn.body, list) else [ast.Return(value=fn.body)]
         first = self._build_block(body, self.exit.id, ctx)
         self._edge(self.entry.id, first, "")
@@ -87,13 +88,64 @@ class CFG:
         return succ
 
     def _simple(self, st, succ, ctx, kind="stmt") -> int:
+        if kind == "stmt" and isinstance(st, ast.Assign) and len(st.targets) == 1 and isinstance(st.targets[0], ast.Name) \
+                and st.targets[0].id in self._named and self._named[st.targets[0].id] is st.value:
+            kind = "cond"  # only names a condition (see _named_conditions)
         n = self._new(kind, st)
         self._edge(n.id, succ, "")
         if self.may_raise(st):
             self._edge(n.id, ctx["exc"], "exc")
         return n.id
 
+    def _named_conditions(self) -> Dict[str, ast.expr]:
+        """locals that only NAME a condition: bound exactly once, by `name = <comparison / boolean expression / not ... /
+        call / attribute>`, and every read of the name stands in test position (the test of an if / while / conditional expression /
+        assert, possibly under and / or / not).  `ok = a and not b` ... `if ok:` is then built exactly like
+        `if a and not b:`, and the assignment is a node of kind "cond", not "stmt": rules see the same tests, guards and
+        statements whether or not a condition was given a name."""
+        defs: Dict[str, List[ast.expr]] = {}
+        a = getattr(self.fn, "args", None)
+        params = {p.arg for p in (a.posonlyargs + a.args + a.kwonlyargs)} if a is not None else set()
+        if a is not None:
+            params |= {x.arg for x in (a.vararg, a.kwarg) if x is not None}
+        stores: Dict[str, int] = {}
+        for x in ast.walk(self.fn):
+            if isinstance(x, ast.Name) and isinstance(x.ctx, (ast.Store, ast.Del)):
+                stores[x.id] = stores.get(x.id, 0) + 1
+            if isinstance(x, ast.Assign) and len(x.targets) == 1 and isinstance(x.targets[0], ast.Name) \
+                    and isinstance(x.value, (ast.Compare, ast.BoolOp, ast.UnaryOp, ast.Call, ast.Attribute)) \
+                    and not (isinstance(x.value, ast.UnaryOp) and not isinstance(x.value.op, ast.Not)):
+                defs.setdefault(x.targets[0].id, []).append(x.value)
+        cand = {n: v[0] for n, v in defs.items() if len(v) == 1 and stores.get(n) == 1 and n not in params}
+        if not cand:
+            return {}
+        in_test: Dict[str, int] = {n: 0 for n in cand}
+        loads: Dict[str, int] = {n: 0 for n in cand}
+
+        def mark(e):
+            if isinstance(e, ast.BoolOp):
+                for v in e.values:
+                    mark(v)
+            elif isinstance(e, ast.UnaryOp) and isinstance(e.op, ast.Not):
+                mark(e.operand)
+            elif isinstance(e, ast.Name) and e.id in in_test:
+                in_test[e.id] += 1
+
+        for x in ast.walk(self.fn):
+            if isinstance(x, ast.Name) and isinstance(x.ctx, ast.Load) and x.id in loads:
+                loads[x.id] += 1
+            if isinstance(x, (ast.If, ast.While, ast.IfExp, ast.Assert)):
+                mark(x.test)
+        # a call result is a condition only when it is used as one and nowhere else; the others likewise
+        return {n: v for n, v in cand.items() if loads[n] > 0 and loads[n] == in_test[n]}
+
     def _cond(self, expr: ast.expr, t: int, f: int, ctx) -> int:
+        if isinstance(expr, ast.Name) and expr.id in self._named and not getattr(self, "_expanding", set()) & {expr.id}:
+            self._expanding = getattr(self, "_expanding", set()) | {expr.id}
+            try:
+                return self._cond(self._named[expr.id], t, f, ctx)
+            finally:
+                self._expanding = self._expanding - {expr.id}
         if isinstance(expr, ast.BoolOp):
             vals = expr.values
             if isinstance(expr.op, ast.And):
@@ -372,6 +424,11 @@ class CFG:
         # a test on a boolean local that names a condition (`ok = a and not b` ... `if ok:`): add the facts the named
         # condition implies, so that rules see the same guards whether or not the condition was given a name
         extra = []
+        # the other direction: a test that IS the definition of a named condition also states the name
+        rev = {id(v): n for n, v in self._named.items()}
+        for t, pol in out:
+            if id(t) in rev:
+                extra.append((ast.copy_location(ast.Name(id=rev[id(t)], ctx=ast.Load()), t), pol))
         for t, pol in out:
             if isinstance(t, ast.Name):
                 d = self._single_definition(t.id)
